@@ -190,6 +190,26 @@ def meat(db, rep):
     rep.require_min("C01.MEAT", 6)
 
 
+def meat_supply_read(db, rep, rule):
+    """what the LP takes as the meat made available (used by C05): with storage the stock starts from the horizon total handed over
+    (meat_summed_consumption) and is drawn down by what is eaten; without storage month m is bounded by the slaughter of month m"""
+    n = 0
+    for t in [t for t in tmpl(db, "resource:ADD_MEAT") if not t.aborted]:
+        store = flag(t, "consts.STORE_FOOD_BETWEEN_YEARS")
+        env = f"{t.opt_type}|months{t.mc}|STORE={'T' if store else 'F'}"
+        n += 1
+        if store:
+            prev = 'consts["meat_summed_consumption"]' if is_first(t) else V_("meat_end", -1)
+            ok, resid = implied_eq(t, db.spec(t, f'{V_("meat_end")} - ({prev}) + {H("meat")} * {V_("meat_eaten")}'))
+            rep.check(ok, rule, f"LP meat stock[{env}]", "the LP's meat stock is not (total slaughtered over the horizon) minus what was eaten so far",
+                      loc=OPT, detail=f"residual: {resid}")
+        else:
+            got = implied_ineq(t, db.spec(t, f'{H("meat")} * {V_("meat_eaten")} - tc["each_month_meat_slaughtered"][month].kcals'))
+            rep.check(bool(got), rule, f"LP meat of the month[{env}]",
+                      "without storage the meat the LP may use in month m is not bounded by the meat slaughtered in month m", loc=OPT)
+    rep.require_min(rule, 6)
+
+
 def scp_cs(db, rep):
     for flagname, fam, wkey, tcname, rule in (
         ("ADD_METHANE_SCP", "methane_scp", "scp", "methane_scp", "C01.SCP"),
